@@ -5,6 +5,7 @@ CONSTANTS
   MaxBlocks = 3
   Layouts = {"plain", "fee_after", "fee_before"}
   MaxUnwind = 1
+  Features = {}
   Defect = "none"
   MaxReload = 0
 CONSTRAINT Bounded
